@@ -438,6 +438,42 @@ func genVerb(rng__ *rand.Rand) rune {
 	vs := []rune("bdoOxXsvqeEfFgGcUtTpz%")
 	return vs[rng__.Intn(len(vs))]
 }
+// genAny: what database/sql hands to a Scanner, and a few things it does not
+func genAny(rng__ *rand.Rand) interface{} {
+	switch rng__.Intn(8) {
+	case 0:
+		return nil
+	case 1:
+		return []byte(racTexts[rng__.Intn(len(racTexts))])
+	case 2:
+		return racTexts[rng__.Intn(len(racTexts))]
+	case 3:
+		return genInt(rng__)
+	case 4:
+		return []float64{0, -0.5, 1e300, 1e-320, 123.456, -1}[rng__.Intn(6)]
+	case 5:
+		return genBytes(rng__)
+	case 6:
+		return true
+	}
+	return struct{}{}
+}
+func genNullDecimal(rng__ *rand.Rand) *NullDecimal {
+	n := &NullDecimal{Valid: rng__.Intn(2) == 0}
+	d := genDecimal(rng__)
+	n.Decimal.Form, n.Decimal.Negative, n.Decimal.Exponent = d.Form, d.Negative, d.Exponent
+	n.Decimal.Coeff.Set(&d.Coeff)
+	return n
+}
+func cpNull(n *NullDecimal) *NullDecimal {
+	if n == nil {
+		return nil
+	}
+	c := &NullDecimal{Valid: n.Valid}
+	c.Decimal.Form, c.Decimal.Negative, c.Decimal.Exponent = n.Decimal.Form, n.Decimal.Negative, n.Decimal.Exponent
+	c.Decimal.Coeff.Set(&n.Decimal.Coeff)
+	return c
+}
 func genSlice(rng__ *rand.Rand) []int64 {
 	n := rng__.Intn(4)
 	xs := make([]int64, n)
@@ -561,6 +597,13 @@ func (W *World) racParams(fn *ssa.Function) ([]racParam, bool) {
 			rp.goType, rp.gen, rp.cp, rp.show, rp.ptrType = "*Context", "genContext(rng__)", "cpCtx(%s)", "showCtx(%s)", "Context"
 		case isPtrTo(t, "BigInt"):
 			rp.goType, rp.gen, rp.cp, rp.show, rp.ptrType = "*BigInt", "genBigInt(rng__)", "cpBig(%s)", "showBig(%s)", "BigInt"
+		case isPtrTo(t, "NullDecimal"):
+			rp.goType, rp.gen, rp.cp, rp.show, rp.ptrType = "*NullDecimal", "genNullDecimal(rng__)", "cpNull(%s)", "fmt.Sprintf(\"{Valid:%%v %%s}\", %[1]s.Valid, showDec(&%[1]s.Decimal))", "NullDecimal"
+		case isNamed(t, "Decimal"):
+			// a by-value receiver: the harness hands over a shallow copy, exactly what a caller's d.Value() does
+			rp.goType, rp.gen, rp.show = "Decimal", "*genDecimal(rng__)", "showDec(&%s)"
+		case isNamed(t, "NullDecimal"):
+			rp.goType, rp.gen, rp.show = "NullDecimal", "*genNullDecimal(rng__)", "fmt.Sprint(%s.Valid)"
 		case isPtrTo(t, "ErrDecimal"):
 			rp.goType, rp.gen, rp.cp, rp.show, rp.ptrType = "*ErrDecimal", "genErrDecimal(rng__)", "cpErr(%s)", "fmt.Sprintf(\"%%+v\", *%s)", "ErrDecimal"
 		case isCondition(t):
@@ -606,7 +649,9 @@ func (W *World) racParams(fn *ssa.Function) ([]racParam, bool) {
 					return nil, false
 				}
 			case *types.Interface:
-				if nm, ok := t.(*types.Named); ok && nm.Obj().Name() == "State" && nm.Obj().Pkg() != nil && nm.Obj().Pkg().Path() == "fmt" {
+				if u.NumMethods() == 0 {
+					rp.goType, rp.gen, rp.show = "interface{}", "genAny(rng__)", "fmt.Sprintf(\"%%T(%%v)\", %[1]s, %[1]s)"
+				} else if nm, ok := t.(*types.Named); ok && nm.Obj().Name() == "State" && nm.Obj().Pkg() != nil && nm.Obj().Pkg().Path() == "fmt" {
 					rp.goType, rp.gen, rp.show = "fmt.State", "genState(rng__)", "fmt.Sprintf(\"%%+v\", *%s.(*racState))"
 				} else {
 					return nil, false
